@@ -191,6 +191,12 @@ fn main() {
         let o2 = judge_proc(&ctx, &va, stdin.as_deref(), &[], None, "", &mut st);
         st.inc("verbose_pairs");
         if o1.stdout != o2.stdout || (o1.status == 0) != (o2.status == 0) { ctx.violation("verbose_changes_stdout", args.join(" "), json!({"kind":"proc","args":args,"stdin":stdin}), format!("plain exit {} stdout {:?}; -v exit {} stdout {:?}", o1.status, truncate(&o1.stdout_str(), 100), o2.status, truncate(&o2.stdout_str(), 100))); }
+        // the documented logging variables: logs go to stderr whatever their level or syntax; stdout and status unchanged
+        for (k, v) in [("RUST_LOG", "trace"), ("RUST_LOG", "zerv=debug,[{"), ("ZERV_FORCE_RUST_LOG_OFF", "1")] {
+            let o3 = judge_proc(&ctx, args, stdin.as_deref(), &[(k, v)], None, &format!("[{k}={v}] "), &mut st);
+            st.inc("log_env_runs");
+            if o3.stdout != o1.stdout || o3.status != o1.status { ctx.violation("log_environment_changes_result", format!("[{k}={v}] {}", args.join(" ")), json!({"kind":"proc","args":args,"stdin":stdin,"env":[format!("{k}={v}")]}), format!("plain exit {} stdout {:?}; with {k}={v} exit {} stdout {:?}", o1.status, truncate(&o1.stdout_str(), 100), o3.status, truncate(&o3.stdout_str(), 100))); }
+        }
         // in-process and process agree on success/failure
         if let Ok(r) = zv::run_cli(args, stdin.as_deref()) { if let Err(e) = zv::conforms(&Ok(r), &o1) { ctx.violation("binary_differs_from_inprocess", args.join(" "), json!({"kind":"proc","args":args,"stdin":stdin}), e); } }
         st
@@ -284,7 +290,7 @@ fn main() {
     cov.transitions = cov.evaluations;
     cov.traces_validated = cov.evaluations;
     cov.distinct_nontrivial = all.get("zerv_error") + all.get("usage_error") + all.get("process_failed") + all.get("fault_plans");
-    cov.rule = format!("(a) flags read from Cli::command() at run time; for version and flow in 4 source contexts every single flag x a {}-value adversarial pool, every pair of flags x a {}-value pool, malformed stdin documents; 133 custom precedence orders (every single, every ordered pair, every all-but-one, reversed) on stdin and via --schema-ron x every bump/override flag x a 5-value pool; render/check on {} nasty version strings x formats x templates; every template function x argument pool singles and pairs: {} in-process runs under catch_unwind; (b) a strided slice of those through the real binary plain and with -v (stdout identical, exit/stream protocol), help/version/llm-help; (c) git faults: for each of 6 repository scenarios x [version, flow] the shim records the N git calls of a fault-free run, then every k<=N x 6 fault modes (deviation 1){}, plus git missing / -C to a missing path / file / non-repository; (d) through the binary only: 21 recursive input shapes (template parentheses / if / for / + / and / function / filter / ~ / array / path / not nesting or chains, custom JSON, --schema-ron, --branch-rules, stdin documents, long SemVer / PEP 440 strings) at sizes 8, 64, 512, 4096 (thorough also 16384, 60000) and stdin byte contents (invalid UTF-8, NUL, BOM, CRLF, Latin-1): zerv must terminate without abort. non-trivial = runs that end in an error path plus fault plans", pool.len(), spool.len(), versions.len(), jobs.len(), if quick { "" } else { " and every pair of fault points in 2 modes (deviation 2)" });
+    cov.rule = format!("(a) flags read from Cli::command() at run time; for version and flow in 4 source contexts every single flag x a {}-value adversarial pool, every pair of flags x a {}-value pool, malformed stdin documents; 133 custom precedence orders (every single, every ordered pair, every all-but-one, reversed) on stdin and via --schema-ron x every bump/override flag x a 5-value pool; render/check on {} nasty version strings x formats x templates; every template function x argument pool singles and pairs: {} in-process runs under catch_unwind; (b) a strided slice of those through the real binary plain, with -v and under RUST_LOG=trace / a malformed RUST_LOG / ZERV_FORCE_RUST_LOG_OFF (stdout and status identical, exit/stream protocol), help/version/llm-help; (c) git faults: for each of 6 repository scenarios x [version, flow] the shim records the N git calls of a fault-free run, then every k<=N x 6 fault modes (deviation 1){}, plus git missing / -C to a missing path / file / non-repository; (d) through the binary only: 21 recursive input shapes (template parentheses / if / for / + / and / function / filter / ~ / array / path / not nesting or chains, custom JSON, --schema-ron, --branch-rules, stdin documents, long SemVer / PEP 440 strings) at sizes 8, 64, 512, 4096 (thorough also 16384, 60000) and stdin byte contents (invalid UTF-8, NUL, BOM, CRLF, Latin-1): zerv must terminate without abort. non-trivial = runs that end in an error path plus fault plans", pool.len(), spool.len(), versions.len(), jobs.len(), if quick { "" } else { " and every pair of fault points in 2 modes (deviation 2)" });
     cov.exhaustive = true;
     cov.samples = vec![json!(jobs[jobs.len() / 2].0), json!(jobs[17].0), json!({"scenario":"ahead+dirty","command":"flow","fault_at":7,"mode":"garbage"})];
     cov.set("clause_counts", all.to_json());
